@@ -15,9 +15,15 @@
   the tags the receiver's `parseMessageHeader` checks.
   The public routing helper ExtractInstanceTags is covered by the `tags` profile (differential +
   oracle), see DESIGN §7 C15.
+  `parseItag_range`, `parseItag_signed_rejected`, `parseItag_eq_some_iff`: the instance tags of a
+  v3 fragment prefix are read by the repaired `parseItag` (`strconv.ParseUint(s, 16, 32)`): plain
+  hexadecimal digits, no sign, value below 2^32 (no reduction modulo 2^32).
+  `receiveUnit_invalid_fragment` (repaired code, exact): a fragment that `receiveFragment` rejects
+  leaves the peer tag as it was before the call, even when its prefix named a well-formed sender.
 -/
 
 import Proofs.ConvLife
+import Proofs.Frag
 namespace Otr.C15
 open Otr
 
@@ -105,5 +111,17 @@ theorem header_roundtrip (snd rcv : MState) (hs : snd.conv.version = some .v3) (
         bindM (runM (verifyInstanceTags snd.conv.ourTag snd.conv.theirTag) rcv)
           (fun _ s' => .ok (.ok (hdr, body), s')) := by
   first | exact Otr.header_roundtrip | exact @Otr.header_roundtrip | (apply Otr.header_roundtrip <;> assumption) | (intros; apply Otr.header_roundtrip <;> assumption)
+
+theorem parseItag_range : type_of% @Otr.parseItag_range := @Otr.parseItag_range
+
+theorem parseItag_signed_rejected : type_of% @Otr.parseItag_signed_rejected := @Otr.parseItag_signed_rejected
+
+theorem parseItag_eq_some_iff : type_of% @Otr.parseItag_eq_some_iff := @Otr.parseItag_eq_some_iff
+
+theorem receiveUnit_invalid_fragment : type_of% @Otr.receiveUnit_invalid_fragment :=
+  @Otr.receiveUnit_invalid_fragment
+
+theorem receiveUnit_invalid_fragment_theirTag : type_of% @Otr.receiveUnit_invalid_fragment_theirTag :=
+  @Otr.receiveUnit_invalid_fragment_theirTag
 
 end Otr.C15
